@@ -4,6 +4,7 @@ mod driver;
 mod report;
 mod e1_codec;
 mod e1_quorum;
+mod e1_unit;
 mod e2_quorumwaiter;
 mod e2_store;
 mod e3_cons;
@@ -58,6 +59,9 @@ fn main() {
     }
     let report = match o.engine.as_str() {
         "quorum" => e1_quorum::run(&o),
+        "verify" => e1_unit::run_verify(&o),
+        "leader" => e1_unit::run_leader(&o),
+        "aggregator" => e1_unit::run_aggregator(&o),
         "codec" => e1_codec::run(&o),
         "store" => e2_store::run(&o),
         "quorumwaiter" => e2_quorumwaiter::run(&o),
